@@ -294,7 +294,13 @@ fn run_case(run: &mut Run, ctx: &Ctx, e: &E, stream: &str) {
     } else {
         "impl-result=exact"
     });
-    run.case(lit, &show(e), changed, known);
+    // pi-survives-limit: the result is the bare symbol pi, the input is deeper than LIMIT and mentions pi
+    let known_struct = if matches!(out, E::Pi) && e.depth() > 10 && e.any(&|s| matches!(s, E::Pi)) {
+        Some("pi-survives-limit")
+    } else {
+        known
+    };
+    run.case(lit, &show(e), changed, known_struct);
 }
 
 fn parse_shown(_s: &str) -> Option<E> {
@@ -337,6 +343,13 @@ fn main() {
         E::infix(n(TINY), Op::Star, x()), // tolerant-zero
         E::infix(x(), Op::Star, n(1.0 + TINY)),
     ];
+    let mut corpus = corpus;
+    // pi-survives-limit: nine times 0+(...) around (%x*pi)/%x
+    let mut deep = E::infix(E::infix(x(), Op::Star, E::Pi), Op::Slash, x());
+    for _ in 0..9 {
+        deep = E::infix(n(0.0), Op::Plus, deep);
+    }
+    corpus.push(deep);
     for e in &corpus {
         run_case(&mut run, &ctx, e, "corpus");
     }
@@ -384,6 +397,27 @@ fn main() {
         let e = random(&big, &mut rng, d);
         run_case(&mut run, &ctx, &e, "random");
     }
+    // (2b) deep chains (depth 7..13) around a small core: the limit runs out inside the tree
+    let wrappers: Vec<Box<dyn Fn(E) -> E>> = vec![
+        Box::new(|e| E::infix(E::Num(0.0, 0.0), Op::Plus, e)),
+        Box::new(|e| E::infix(e, Op::Star, E::Num(1.0, 0.0))),
+        Box::new(|e| E::neg(e)),
+        Box::new(|e| E::pos(e)),
+        Box::new(|e| E::fnc(F::Sin, e)),
+        Box::new(|e| E::infix(e, Op::Plus, E::Var(1))),
+        Box::new(|e| E::infix(E::Num(2.0, 0.0), Op::Star, e)),
+        Box::new(|e| E::infix(e, Op::Minus, E::Num(0.5, 0.0))),
+    ];
+    let ndeep = if args.thorough() { 3000 } else { 400 };
+    for _ in 0..ndeep {
+        let mut e = random(&big, &mut rng, 2);
+        let k = rng.range(6, 11);
+        for _ in 0..k {
+            let w = &wrappers[rng.below(wrappers.len())];
+            e = w(e);
+        }
+        run_case(&mut run, &ctx, &e, "deep");
+    }
     // (3) literals close to the tolerance of is_zero / is_one (known finding tolerant-zero)
     let tol = Alphabet {
         leaves: vec![n(TINY), n(1.0 + TINY), n(-TINY), x(), y(), n(2.0)],
@@ -398,11 +432,11 @@ fn main() {
         "exhaustive: every expression tree of depth <= 2 with at most N nodes (N = extra.full_nodes; 7 = all of depth 2) \
          over {0, 1, 2, -0.5, %x, %y, a[0]; cis cos exp sin sqrt, prefix -, prefix +; ^ + - / *}; a seeded sample of the \
          remaining depth-2 trees; seeded random trees of depth <= 5 over a larger alphabet (incl. pi, a complex literal, \
-         repeated subtrees); all depth-1 trees over literals within 1e-10 of 0 and 1; the regression corpus of finding \
+         repeated subtrees); deep chains of 6..11 unary/binary wrappers around a random depth-2 core (the limit of 10 runs out inside); all depth-1 trees over literals within 1e-10 of 0 and 1; the regression corpus of finding \
          witnesses. Distinct by the tree; non-trivial = the implementation's simplified form differs from the input.",
         true,
         serde_json::json!({"full_nodes": full_nodes, "exhaustive_cases": nsmall, "depth2_sample": sampled_d2,
-                           "random_cases": nrand, "tolerance_cases": tol_cases.len(), "corpus": corpus.len(),
+                           "random_cases": nrand, "deep_cases": ndeep, "tolerance_cases": tol_cases.len(), "corpus": corpus.len(),
                            "mutant": ctx.mutant}),
     );
 }
